@@ -22,6 +22,8 @@ type c13Obs struct {
 	hSess     []string
 	hAfter    []interface{}
 	hSender   []bool
+	hData     []interface{} // what each handler read back from its session after the other request ran
+	hObj      []Session
 	nested    func()
 	depth     int
 	nestInMW  bool // the other client's request arrives while this one is still in the middleware
@@ -57,10 +59,26 @@ func (o *c13Obs) handler(ctx context.Context, r *CallToolRequest) (*CallToolResu
 	o.hSess = append(o.hSess, sid)
 	_, hasSender := GetNotificationSender(ctx)
 	o.hSender = append(o.hSender, hasSender)
+	// the session handed to this request is used as request/caller-scoped storage
+	tok, _ := ctx.Value(c13K1{}).(string)
+	sess, _ := GetSessionFromContext(ctx)
+	if sess != nil {
+		sess.SetData("who", tok)
+	}
+	o.hObj = append(o.hObj, sess)
+	slot := len(o.hObj) - 1 // this handler run, in start order (as hTok)
 	o.depth++
 	if !o.nestInMW && o.depth == 1 && o.nested != nil {
 		o.nested() // another client's request is served while this one is in flight
 		o.hAfter = append(o.hAfter, ctx.Value(c13K1{}))
+	}
+	// recorded in the slot of this handler run (the inner request finishes before the outer one)
+	for len(o.hData) <= slot {
+		o.hData = append(o.hData, nil)
+	}
+	if sess != nil {
+		v, _ := sess.GetData("who")
+		o.hData[slot] = v
 	}
 	return NewTextResult("ok"), nil
 }
@@ -159,6 +177,13 @@ func H_C13_streamable() {
 			vAssert("outer-context-unchanged-after-inner-request", vAnd(len(o.hAfter) == 1, o.hAfter[0] == a))
 		}
 		vAssert("handlers-have-sender", vAnd(o.hSender[0], o.hSender[1]))
+		// two clients never share a session object (also in stateless mode, where each request gets a
+		// temporary one): what a request stored in its session is what it reads back
+		vAssert("each-request-has-a-session", vAnd(o.hObj[0] != nil, o.hObj[1] != nil))
+		if o.hObj[0] != nil && o.hObj[1] != nil {
+			vAssert("sessions-of-two-clients-are-distinct", vAnd(o.hObj[0] != o.hObj[1], o.hObj[0].GetID() != o.hObj[1].GetID()))
+		}
+		vAssert("session-data-not-overwritten-by-the-other-client", vAnd(len(o.hData) == 2, vAnd(o.hData[ia] == a, o.hData[ib] == b)))
 		if stateful {
 			vAssert("outer-handler-own-session", o.hSess[ia] == sa)
 			vAssert("inner-handler-own-session", o.hSess[ib] == sb)
